@@ -1,6 +1,146 @@
-//! Verbatim slices of generator source (layer G). Filled in by later steps.
-use serde_json::{json, Value};
+//! Verbatim slices of generator source (layer G).
+//!
+//! `vx slice <file.rs> <spec.json>`; spec = {"items": [ {"id": .., "fn": <function name>,
+//! "let": <binding name>} | {"id": .., "fn": .., "for_over": <flat text prefix of the iterated
+//! expression>, "with_preceding_lets": [names]} | {"id": .., "enum": <name>} ], "overlay": {id: overlay}}
+//! Each slice is printed token-for-token as it stands in the file (pretty-printed), with only the
+//! annotation overlay spliced in.
+use crate::pp;
+use crate::rewrite::annotate_slice;
+use quote::ToTokens;
+use serde_json::{json, Map, Value};
+use syn::visit::Visit;
+use syn::*;
 
-pub fn slice(_src: &str, _what: &str) -> Value {
-    json!({})
+struct FindFn<'a> {
+    name: &'a str,
+    found: Vec<Block>,
+}
+impl<'a, 'ast> Visit<'ast> for FindFn<'a> {
+    fn visit_impl_item_fn(&mut self, f: &'ast ImplItemFn) {
+        if f.sig.ident == self.name {
+            self.found.push(f.block.clone());
+        }
+        visit::visit_impl_item_fn(self, f);
+    }
+    fn visit_item_fn(&mut self, f: &'ast ItemFn) {
+        if f.sig.ident == self.name {
+            self.found.push((*f.block).clone());
+        }
+        visit::visit_item_fn(self, f);
+    }
+}
+
+/// all statement lists of a block, recursively (blocks of if/else/loops/let-else/closures)
+struct StmtLists {
+    lists: Vec<Vec<Stmt>>,
+}
+impl<'ast> Visit<'ast> for StmtLists {
+    fn visit_block(&mut self, b: &'ast Block) {
+        self.lists.push(b.stmts.clone());
+        visit::visit_block(self, b);
+    }
+}
+
+fn flat<T: ToTokens>(t: &T) -> String {
+    pp::flat(&t.to_token_stream())
+}
+
+fn let_name(s: &Stmt) -> Option<String> {
+    if let Stmt::Local(l) = s {
+        let mut p = &l.pat;
+        if let Pat::Type(pt) = p {
+            p = &pt.pat;
+        }
+        if let Pat::Ident(pi) = p {
+            return Some(pi.ident.to_string());
+        }
+    }
+    None
+}
+
+pub fn slice(src: &str, spec_path: &str) -> Value {
+    let spec: Value = serde_json::from_str(&std::fs::read_to_string(spec_path).expect("read spec")).expect("spec json");
+    let file = match syn::parse_file(src) {
+        Ok(f) => f,
+        Err(e) => return json!({"error": format!("cannot parse: {e}")}),
+    };
+    let mut out = Map::new();
+    let empty = Value::Object(Default::default());
+    let overlay = spec.get("overlay").unwrap_or(&empty);
+    for item in spec.get("items").and_then(|v| v.as_array()).cloned().unwrap_or_default() {
+        let id = item.get("id").and_then(|v| v.as_str()).unwrap_or("?").to_string();
+        if let Some(en) = item.get("enum").and_then(|v| v.as_str()) {
+            let mut found = None;
+            for it in &file.items {
+                if let Item::Enum(e) = it {
+                    if e.ident == en {
+                        found = Some(e.clone());
+                    }
+                }
+            }
+            match found {
+                Some(e) => {
+                    out.insert(id, json!({"text": pp::pretty(&e.to_token_stream(), 0), "raw": flat(&e), "errors": []}));
+                }
+                None => {
+                    out.insert(id, json!({"errors": [format!("enum {en} not found")]}));
+                }
+            }
+            continue;
+        }
+        let fname = item.get("fn").and_then(|v| v.as_str()).unwrap_or("");
+        let mut ff = FindFn { name: fname, found: Vec::new() };
+        ff.visit_file(&file);
+        if ff.found.len() != 1 {
+            out.insert(id, json!({"errors": [format!("function {fname}: {} definitions found", ff.found.len())]}));
+            continue;
+        }
+        let mut sl = StmtLists { lists: Vec::new() };
+        sl.visit_block(&ff.found[0]);
+        let mut picked: Vec<Vec<Stmt>> = Vec::new();
+        if let Some(name) = item.get("let").and_then(|v| v.as_str()) {
+            // top-level statements of the function only
+            if let Some(l) = sl.lists.first() {
+                for s in l {
+                    if let_name(s).as_deref() == Some(name) {
+                        picked.push(vec![s.clone()]);
+                    }
+                }
+            }
+        } else if let Some(prefix) = item.get("for_over").and_then(|v| v.as_str()) {
+            let pre: Vec<String> = item
+                .get("with_preceding_lets")
+                .and_then(|v| v.as_array())
+                .map(|a| a.iter().filter_map(|x| x.as_str().map(|s| s.to_string())).collect())
+                .unwrap_or_default();
+            for l in &sl.lists {
+                for (i, s) in l.iter().enumerate() {
+                    let is_for = match s {
+                        Stmt::Expr(Expr::ForLoop(f), _) => flat(&f.expr).starts_with(prefix),
+                        _ => false,
+                    };
+                    if is_for {
+                        let mut v = Vec::new();
+                        for p in l[..i].iter() {
+                            if let Some(n) = let_name(p) {
+                                if pre.contains(&n) {
+                                    v.push(p.clone());
+                                }
+                            }
+                        }
+                        v.push(s.clone());
+                        picked.push(v);
+                    }
+                }
+            }
+        }
+        if picked.len() != 1 {
+            let msg = format!("slice {id}: {} matches (need exactly 1)", picked.len()); out.insert(id, json!({"errors": [msg]}));
+            continue;
+        }
+        let (text, raw, errors, templates) = annotate_slice(picked.remove(0), overlay.get(&id));
+        out.insert(id, json!({"text": text, "raw": raw, "errors": errors, "quote_templates": templates}));
+    }
+    Value::Object(out)
 }
